@@ -534,7 +534,7 @@ func locksEngineFacts(t *tr, p *packages.Package) string {
 		t.errs = append(t.errs, "package core/engine not loaded")
 		return ""
 	}
-	var factory, wiring, shoots []string
+	var factory, wiring, shoots, creates, runs []string
 	for _, f := range p.Syntax {
 		if strings.HasSuffix(p.Fset.Position(f.Pos()).Filename, "_test.go") {
 			continue
@@ -559,7 +559,13 @@ func locksEngineFacts(t *tr, p *packages.Package) string {
 							return false
 						}
 					case *ast.CallExpr:
+						if id, ok := x.Fun.(*ast.Ident); ok && id.Name == "newInstance" {
+							creates = append(creates, fmt.Sprintf("(%q, %v)", fd.Name.Name, inLoop))
+						}
 						if sel, ok := x.Fun.(*ast.SelectorExpr); ok {
+							if tv, ok := p.TypesInfo.Types[sel.X]; ok && sel.Sel.Name == "Run" && strings.HasSuffix(tv.Type.String(), "core/engine.instance") {
+								runs = append(runs, fmt.Sprintf("(%q, %v)", fd.Name.Name, inLoop))
+							}
 							switch sel.Sel.Name {
 							case "NewGun", "newGun":
 								factory = append(factory, fmt.Sprintf("(%q, %q, %v)", fd.Name.Name, types.ExprString(x.Fun), inLoop))
@@ -587,6 +593,8 @@ func locksEngineFacts(t *tr, p *packages.Package) string {
 	sort.Strings(factory)
 	sort.Strings(wiring)
 	sort.Strings(shoots)
+	sort.Strings(creates)
+	sort.Strings(runs)
 	var b strings.Builder
 	b.WriteString("\n/-- regenerated from core/engine: every call of the gun factory (function, callee, inside a loop?) -/\n")
 	b.WriteString("def gunFactoryCalls : List (String × String × Bool) := [" + strings.Join(factory, ", ") + "]\n")
@@ -594,6 +602,10 @@ func locksEngineFacts(t *tr, p *packages.Package) string {
 	b.WriteString("def gunWiring : List (String × String) := [" + strings.Join(wiring, ", ") + "]\n")
 	b.WriteString("\n/-- every call of `Shoot` in the engine: (function, receiver) -/\n")
 	b.WriteString("def shootCalls : List (String × String) := [" + strings.Join(shoots, ", ") + "]\n")
+	b.WriteString("\n/-- every call of `newInstance`: (function, inside a loop?) -/\n")
+	b.WriteString("def instanceCreations : List (String × Bool) := [" + strings.Join(creates, ", ") + "]\n")
+	b.WriteString("\n/-- every call of `(*instance).Run`: (function, inside a loop?) -/\n")
+	b.WriteString("def instanceRuns : List (String × Bool) := [" + strings.Join(runs, ", ") + "]\n")
 	return b.String()
 }
 
